@@ -246,7 +246,7 @@ def oracle_pwc(c, got):
 
 def correspondence(rep, rng, tier):
     from .. import pipeline as _PL
-    _PL.section_e2e(rep, rng, tier, n=(120 if tier == 'quick' else 4000))
+    _PL.section_e2e(rep, rng, tier, n=(120 if tier == 'quick' else 3000), cuts=True)
     v2 = v2_case_set(rng, tier)
     run_section(rep, 'trunc-v2', v2, line_trunc, impl_trunc, oracle_fn=oracle_trunc,
                 kind_fn=lambda c, got: 'batch',
@@ -283,6 +283,9 @@ def replay(path):
         r = json.load(fd)
     rp = r['replay']
     sec, case = rp['section'], rp['case']
+    if sec == 'end-to-end':
+        from .. import pipeline as _PL
+        return _PL.replay_e2e(case, 'C06', path)
     if sec == 'pwc':
         got, model, res = impl_pwc(case), core.drive(['pwc %d %d' % (case['count'], case['n'])])[0], None
         res = oracle_pwc(case, got)
@@ -304,7 +307,12 @@ LEVEL_TEXT = ('Lean theorems over the reader/construct model of parse (v2 and v3
               '(events are decodings of disjoint ascending 64-byte windows of the input), never_hangs (fuel of all loops never '
               'exhausted = each iteration progresses), reads_linear (read calls + bytes returned <= 5*len + 67), '
               'trunc_same_threadmap, pipeline_causal / traces_causal / feedGen_prefix (per-item stages preserve prefixes), '
-              'count_prefix (print_with_count literally), seekUntil_fuel_hang_old (pre-fix loop never terminates at EOF); tied to '
+              'count_prefix (print_with_count literally); end to end over Model/EndToEnd for EVERY byte string, cut, filter '
+              'configuration, code table and column setting: e2e_truncated_dump (cut header parses => whole header parses, '
+              'same thread map, events a prefix — incl. cuts inside the greedy zero padding), e2e_truncation_prefix '
+              '(formatted trace lines of the cut are a prefix of those of the whole dump), e2e_truncation_monotone, '
+              'e2e_traces_prefix, e2e_count_prefix, e2e_dump_is_parse (the composition\'s container step is parse); '
+              'seekUntil_fuel_hang_old (pre-fix loop never terminates at EOF); tied to '
               'the code by cutting generated dumps at every offset under a counting reader with budget and watchdog.')
 LEVEL_NOTE = ('Termination itself is a runtime fact: the proof is about the model (total functions + never_hangs), the code is '
               'tied by the differential runs incl. read counters. The bound is on calls + bytes returned, not bytes requested. '
